@@ -32,11 +32,19 @@ RULE = ("frontends: each case = a document-level operation list in epochs (as C0
         "search steps against one BufferedWriter (limit 1-6) over an index with generated committed documents; after "
         "every step BufferedWriter.searcher() must list exactly the model's documents (stored fields, term and numeric "
         "range searches), and after close() a fresh reader of the index must too. Non-trivial = a search while "
-        ">=1 document is buffered and >=1 committed; distinct by SHA-1 of the case.")
+        ">=1 document is buffered and >=1 committed; distinct by SHA-1 of the case. "
+        "flushtimer: each case = a program against a BufferedWriter on a directory index in which the flush timer "
+        "'fires' at generated steps: commit() runs in a second thread (exactly what threading.Timer does) and is stopped "
+        "by the storage wrapper before its k-th storage operation (k generated), the owner's next 1-2 steps (add / update / "
+        "delete, or close()) run in their own thread, then the timer thread continues; no thread may raise, searchers "
+        "taken between fires show exactly the model, and after close() the index holds exactly the model's documents. "
+        "Non-trivial = the owner ran at least one step while a timer commit stood between two storage operations.")
 ASSUMPTIONS = [
     "MpWriter needs storage that other processes can open: it is combined with directory storage only",
-    "the BufferedWriter flush timer is represented by commit() calls at generated points of the program (the timer "
-    "thread does nothing else); real timer threads are not started so that every run is a function of the seed",
+    "the BufferedWriter flush timer is represented by commit() calls: sequentially at generated points (buffered) and "
+    "in a second thread stopped at a generated storage operation (flushtimer); wall-clock timers are not started so "
+    "that every run is a function of the seed (if the writer serialises the two threads, which thread goes first is "
+    "decided by a 0.3 s grace period and either order must satisfy the oracle)",
     "AsyncWriter's retry thread is real, but it cannot obtain the lock before the harness releases it, so the "
     "outcome does not depend on its timing; delay=1 ms",
 ]
@@ -327,7 +335,191 @@ def run_buffered(case, out):
         out.label("search_over_committed_plus_buffered")
 
 
+# ---------------------------------------------------------------------------------------------------------
+# the flush timer: BufferedWriter.commit() running in another thread (what threading.Timer does) while the owner
+# keeps using the writer.  The harness owns the schedule: the "timer" thread is stopped at a generated storage
+# operation of its commit, the owner's next steps run, then the timer thread continues.
+
+@st.composite
+def timer_program_s(draw):
+    keys = ["k%d" % i for i in range(8)]
+    steps = []
+    live = set()
+    for _ in range(draw(st.integers(2, 12))):
+        kind = draw(st.sampled_from(["add", "upd", "upd", "delk", "search", "fire", "fire"]))
+        if kind in ("add", "upd"):
+            doc = draw(gen.doc_s(st.sampled_from(keys), boosts=False))
+            steps.append(["upd" if doc["k"] in live else kind, doc])
+            live.add(doc["k"])
+        elif kind == "delk":
+            k = draw(st.sampled_from(keys))
+            steps.append(["delk", k])
+            live.discard(k)
+        elif kind == "fire":
+            # the timer fires now; its commit is stopped before its k-th storage operation while the owner runs
+            # the next `during` steps
+            steps.append(["fire", draw(st.integers(0, 60)), draw(st.integers(1, 2))])
+        else:
+            steps.append([kind])
+    return {"steps": steps, "close_during_fire": draw(st.booleans()), "limit": draw(st.sampled_from([2, 3, 100])),
+            "schema": {"t_vector": False, "g_sortable": draw(st.booleans()), "n_sortable": True, "t_boost": 1.0}}
+
+
+def strategy_timer(tier):
+    return timer_program_s()
+
+
+def run_timer(case, out):
+    from wv.faultfs import Clock, FaultStorage
+    from wv.runner import _is_whoosh_frame
+    schema = corpus.build_schema(case["schema"])
+    with tempdir() as d:
+        clock = Clock()
+        ix = FaultStorage(d, clock).create_index(schema)
+        bw = writing.BufferedWriter(ix, period=None, limit=case["limit"])
+        model = {}
+        errors = []
+        state = {"timer": None, "pause_at": None, "count": 0, "paused": threading.Event(), "resume": threading.Event()}
+
+        def on_tick(idx, kind, name):
+            if threading.current_thread() is state["timer"]:
+                if state["count"] == state["pause_at"]:
+                    state["paused"].set()
+                    state["resume"].wait(60)
+                state["count"] += 1
+        clock.on_tick = on_tick
+        # the clock's re-entrancy guard is per process; the callback above does no storage work
+        clock.__class__ = _ThreadAwareClock
+
+        def guarded(fn, who):
+            def run_():
+                try:
+                    fn()
+                except BaseException as e:
+                    errors.append((who, e, traceback.extract_tb(e.__traceback__)))
+            return run_
+
+        def apply(step):
+            if step[0] in ("add", "upd"):
+                (bw.add_document if step[0] == "add" else bw.update_document)(**corpus.doc_kwargs(step[1]))
+            elif step[0] == "delk":
+                bw.delete_by_term("k", step[1])
+
+        def model_apply(step):
+            if step[0] in ("add", "upd"):
+                model[step[1]["k"]] = step[1]
+            elif step[0] == "delk":
+                model.pop(step[1], None)
+
+        import traceback
+        steps = list(case["steps"])
+        i = 0
+        interleaved = False
+        closed = False
+        while i < len(steps) and not errors:
+            step = steps[i]
+            i += 1
+            if step[0] == "fire":
+                state["pause_at"], state["count"] = step[1], 0
+                state["paused"].clear()
+                state["resume"].clear()
+                t = threading.Thread(target=guarded(bw.commit, "timer"))
+                state["timer"] = t
+                t.start()
+                while t.is_alive() and not state["paused"].is_set():
+                    state["paused"].wait(0.005)
+                if state["paused"].is_set():
+                    # the timer's commit stands between two storage operations: the owner goes on
+                    during = []
+                    while len(during) < step[2] and i < len(steps) and steps[i][0] not in ("fire", "search"):
+                        during.append(steps[i])
+                        i += 1
+                    close_now = case["close_during_fire"] and i >= len(steps)
+
+                    def owner():
+                        for st_ in during:
+                            apply(st_)
+                        if close_now:
+                            bw.close()
+                    u = threading.Thread(target=guarded(owner, "owner"))
+                    u.start()
+                    u.join(0.3)          # a thread-safe writer may make the owner wait for the timer's commit
+                    state["resume"].set()
+                    t.join(60)
+                    u.join(60)
+                    if t.is_alive() or u.is_alive():
+                        out.fail("c18.flush_timer_deadlock", {"step": step})
+                        return
+                    for st_ in during:
+                        model_apply(st_)
+                    closed = closed or close_now
+                    if during or close_now:
+                        interleaved = True
+                else:
+                    t.join(60)
+                state["timer"] = None
+            elif step[0] == "search":
+                s = bw.searcher()
+                try:
+                    got = sorted(sf["k"] for sf in s.reader().all_stored_fields())
+                finally:
+                    s.close()
+                if got != sorted(model):
+                    out.fail("c18.flush_timer:searcher_differs", {"got": got, "expected": sorted(model), "step": i})
+                    return
+            else:
+                try:
+                    apply(step)
+                except Exception as e:
+                    errors.append(("owner", e, traceback.extract_tb(e.__traceback__)))
+                model_apply(step)
+        if not closed and not errors:
+            try:
+                bw.close()
+            except Exception as e:
+                errors.append(("close", e, traceback.extract_tb(e.__traceback__)))
+        if errors:
+            who, e, tb = errors[0]
+            if not any(_is_whoosh_frame(f) for f in tb):
+                raise HarnessError("flushtimer harness error in %s: %r\n%s" % (who, e, "".join(traceback.format_list(tb))[-1200:]))
+            wf = [f for f in tb if _is_whoosh_frame(f)][-1]
+            out.fail("c18.flush_timer:%s_raises:%s" % (who, type(e).__name__),
+                     {"error": repr(e)[:200], "where": "%s:%s" % (os.path.basename(wf.filename), wf.name)})
+            try:
+                ix.close()
+            except Exception:
+                pass
+            return
+        r = ix.reader()
+        try:
+            got = sorted(sf["k"] for sf in r.all_stored_fields())
+        finally:
+            r.close()
+        if got != sorted(model):
+            out.fail("c18.flush_timer:documents_lost_or_duplicated_after_close",
+                     {"got": got, "expected": sorted(model)})
+        ix.close()
+    out.nontrivial = interleaved
+    out.key = case
+    if interleaved:
+        out.label("owner_ran_inside_timer_commit")
+
+
+from wv.faultfs import Clock as _Clock
+
+
+class _ThreadAwareClock(_Clock):
+    """Clock whose callback guard is not shared between threads (two threads tick here)."""
+
+    def tick(self, kind, name):
+        idx = self.n
+        self.n += 1
+        if self.on_tick is not None:
+            self.on_tick(idx, kind, name)
+
+
 SUBS = {
     "frontends": Sub(run, strategy, quick=12, thorough=150, quick_shards=8),
     "buffered": Sub(run_buffered, strategy_buffered, quick=60, thorough=1500, quick_shards=8),
+    "flushtimer": Sub(run_timer, strategy_timer, quick=25, thorough=400, quick_shards=8),
 }
